@@ -27,6 +27,10 @@ C09 — property theorems.  Evaluations on separate VMs are safe to run concurre
 * `config_isolated`, `config_readonly_may_share`: configuration options that edit modules in place
   (`WithoutGlobal("m.a")`, `WithGlobalOverride("m.a", v)`) reach only the evaluation they configure, because
   every `DefaultGlobals` call constructs its modules; contrast `C09_contrast_cached_modules`.
+* `import_isolated`, `import_isolated_live`: evaluations sharing ONE importer, any of their contexts ending
+  during any load — an import under a live context gets what it gets when its evaluation is the importer's
+  only user, because the importer keeps compiled code only; contrast `C09_contrast_negative_import_cache`
+  (an importer that remembers failures hands one evaluation's cancellation to the others).
 -/
 namespace Risor.C09
 
@@ -490,5 +494,162 @@ def demoShared : Shared := { code := demoCode, convCache := [], modCache := [] }
 example : SharedOK demoShared ∧ [0, 1, 2, 2, 1, 0, 0, 1, 2].count 1 = demoShared.code.length
     ∧ aloneResult demoCode 2 = [115, 111] := by
   refine ⟨sharedOK_empty _, by decide, by decide⟩
+
+/-! ### §7: one importer shared by evaluations whose contexts may end during a first load -/
+
+/-- what `codeCache` holds is what a load finds, and every import so far got what the Spec allows -/
+def IInv (fs : Nat → Nat) (s : IState) : Prop :=
+  (∀ m v, ilook s.code m = some v → fs m = v + 2) ∧ ∀ t x, x ∈ s.log t → ImpOK fs x.1 x.2
+
+theorem loadRes_of_module {fs : Nat → Nat} {m v : Nat} (h : fs m = v + 2) :
+    loadRes fs m true = v + 3 := by
+  simp [loadRes, h]
+
+theorem loadRes_ge3 {fs : Nat → Nat} {m : Nat} {live : Bool} (h : 3 ≤ loadRes fs m live) :
+    fs m = loadRes fs m live - 3 + 2 := by
+  cases hf : fs m with
+  | zero => simp [loadRes, hf] at h
+  | succ k =>
+    cases live with
+    | false => simp [loadRes, hf] at h
+    | true =>
+      by_cases h2 : k = 0
+      · simp [loadRes, hf, h2] at h
+      · simp [loadRes, hf, h2] at h ⊢
+        omega
+
+theorem loadRes_ok (fs : Nat → Nat) (ev : IEv) : ImpOK fs ev (loadRes fs ev.m ev.live) := by
+  cases hl : ev.live with
+  | true => exact Or.inl rfl
+  | false => exact Or.inr ⟨hl, rfl⟩
+
+theorem iinv_ilog {fs : Nat → Nat} {s : IState} {ev : IEv} {r : Nat}
+    (h : IInv fs s) (hr : ImpOK fs ev r) : IInv fs (ilog s ev r) := by
+  refine ⟨h.1, ?_⟩
+  intro t x hx
+  simp only [ilog] at hx
+  split at hx
+  · rcases List.mem_append.1 hx with hx | hx
+    · exact h.2 t x hx
+    · have : x = (ev, r) := by simpa using hx
+      subst this; exact hr
+  · exact h.2 t x hx
+
+theorem iinv_step {fs : Nat → Nat} {s : IState} (ev : IEv) (h : IInv fs s) :
+    IInv fs (istep .codeOnly fs s ev) := by
+  unfold istep
+  cases hc : ilook s.code ev.m with
+  | some v =>
+    exact iinv_ilog h (Or.inl (by rw [loadRes_of_module (h.1 _ _ hc)]))
+  | none =>
+    have hp : (ImpPolicy.codeOnly = ImpPolicy.negative) = False := by simp
+    simp only [hp, if_false]
+    by_cases h3 : 3 ≤ loadRes fs ev.m ev.live
+    · simp only [h3, if_true]
+      refine iinv_ilog ⟨?_, h.2⟩ (loadRes_ok fs ev)
+      intro m v hm
+      simp only [ilook] at hm
+      by_cases hmk : m = ev.m
+      · simp only [hmk, if_true] at hm
+        have hv : loadRes fs ev.m ev.live - 3 = v := by simpa using hm
+        rw [hmk, ← hv]; exact loadRes_ge3 h3
+      · simp only [hmk, if_false] at hm
+        exact h.1 m v hm
+    · simp only [h3, if_false]
+      exact iinv_ilog h (loadRes_ok fs ev)
+
+theorem iinv_run {fs : Nat → Nat} (evs : List IEv) :
+    ∀ {s : IState}, IInv fs s → IInv fs (irun .codeOnly fs s evs) := by
+  induction evs with
+  | nil => intro s h; exact h
+  | cons ev rest ih => intro s h; exact ih (iinv_step ev h)
+
+theorem iinv_empty (fs : Nat → Nat) : IInv fs IState.empty :=
+  ⟨fun _ _ h => by simp [IState.empty, ilook] at h, fun _ _ h => by simp [IState.empty] at h⟩
+
+/-- every step logs exactly one outcome, for the evaluation that imports -/
+theorem istep_log (p : ImpPolicy) (fs : Nat → Nat) (s : IState) (ev : IEv) :
+    ∃ r, (istep p fs s ev).log = (ilog s ev r).log := by
+  unfold istep
+  split
+  · exact ⟨_, rfl⟩
+  · split
+    · exact ⟨_, rfl⟩
+    · simp only []
+      split
+      · exact ⟨_, rfl⟩
+      · split <;> exact ⟨_, rfl⟩
+
+/-- the imports an evaluation is answered for are its own import statements, in order (any policy) -/
+theorem irun_log_events (p : ImpPolicy) (fs : Nat → Nat) (evs : List IEv) (e : Nat) :
+    ∀ s : IState, ((irun p fs s evs).log e).map (·.1)
+      = (s.log e).map (·.1) ++ evs.filter (fun ev => ev.e == e) := by
+  induction evs with
+  | nil => intro s; simp [irun]
+  | cons ev rest ih =>
+    intro s
+    obtain ⟨r, hr⟩ := istep_log p fs s ev
+    rw [irun, ih, hr]
+    by_cases he : ev.e = e
+    · simp [ilog, he]
+    · have he' : ¬ e = ev.e := fun h => he h.symm
+      have hb : (ev.e == e) = false := by simpa using he
+      simp [ilog, hb, he']
+
+/-- **Imports through a shared importer.**  For every source tree, every schedule of import
+    statements of any number of evaluations sharing one importer, with any of their contexts ending
+    during any load: every import of every evaluation gets what the Spec allows — under a live
+    context exactly what a first load under that context gets, whatever the other evaluations (and
+    the ends of THEIR contexts) did to the importer. -/
+theorem import_isolated (fs : Nat → Nat) (evs : List IEv) (e : Nat) :
+    ∀ x ∈ (irun .codeOnly fs IState.empty evs).log e, ImpOK fs x.1 x.2 :=
+  fun x hx => (iinv_run evs (iinv_empty fs)).2 e x hx
+
+theorem imports_seen_live (fs : Nat → Nat) (evs : List IEv) (e : Nat)
+    (hl : ∀ ev ∈ evs, ev.e = e → ev.live = true) :
+    importsSeen .codeOnly fs evs e
+      = (evs.filter fun ev => ev.e == e).map fun ev => loadRes fs ev.m true := by
+  have hm := irun_log_events .codeOnly fs evs e IState.empty
+  have hs := import_isolated fs evs e
+  simp only [IState.empty, List.map_nil, List.nil_append] at hm
+  unfold importsSeen
+  rw [← hm, List.map_map]
+  apply List.map_congr_left
+  intro x hx
+  have hx1 : x.1 ∈ evs.filter (fun ev => ev.e == e) := by
+    rw [← hm]; exact List.mem_map_of_mem hx
+  have hx2 := List.mem_filter.1 hx1
+  rcases hs x hx with h | ⟨h, _⟩
+  · exact h
+  · have := hl x.1 hx2.1 (by simpa using hx2.2)
+    rw [this] at h; cases h
+
+/-- **Result isolation for imports.**  An evaluation whose own context stays live through its
+    imports gets from a shared importer, in every schedule, exactly the sequence of modules and
+    errors it gets when it is the only user of the importer — the ends of other evaluations'
+    contexts during their loads included. -/
+theorem import_isolated_live (fs : Nat → Nat) (evs : List IEv) (e : Nat)
+    (hl : ∀ ev ∈ evs, ev.e = e → ev.live = true) :
+    importsSeen .codeOnly fs evs e = importsSeenAlone .codeOnly fs evs e := by
+  unfold importsSeenAlone
+  rw [imports_seen_live fs evs e hl,
+    imports_seen_live fs (evs.filter fun ev => ev.e == e) e
+      (fun ev hev h => hl ev (List.mem_filter.1 hev).1 h)]
+  simp [List.filter_filter]
+
+/-- contrast: an importer that also remembers FAILURES (whatever their cause) lets the end of one
+    evaluation's context reach another: evaluation 0's context ends during the first load of module
+    1; evaluation 1, context live, is told so too, although alone it gets the module. -/
+theorem C09_contrast_negative_import_cache :
+    importsSeen .negative (fun _ => 9) [⟨0, 1, false⟩, ⟨1, 1, true⟩] 1 = [2]
+      ∧ importsSeenAlone .negative (fun _ => 9) [⟨0, 1, false⟩, ⟨1, 1, true⟩] 1 = [10]
+      ∧ importsSeen .codeOnly (fun _ => 9) [⟨0, 1, false⟩, ⟨1, 1, true⟩] 1 = [10] := by
+  refine ⟨by decide, by decide, by decide⟩
+
+/-- non-vacuity: a schedule with a missing module, a module that does not compile, a context that
+    ends during a first load and a cache hit under an ended context -/
+example : importsSeen .codeOnly (fun m => m) [⟨0, 5, false⟩, ⟨1, 5, true⟩, ⟨0, 5, false⟩, ⟨1, 0, true⟩, ⟨1, 1, true⟩] 0 = [2, 6]
+    ∧ importsSeen .codeOnly (fun m => m) [⟨0, 5, false⟩, ⟨1, 5, true⟩, ⟨0, 5, false⟩, ⟨1, 0, true⟩, ⟨1, 1, true⟩] 1 = [6, 0, 1] := by
+  refine ⟨by decide, by decide⟩
 
 end Risor.C09
